@@ -25,6 +25,7 @@ type c19Case struct {
 	Other string   `json:"other,omitempty"` // a second test (other name) that makes the same number of calls with its own values first
 	File  string   `json:"file,omitempty"`  // Filename option
 	Ext   string   `json:"ext,omitempty"`
+	Link  bool     `json:"link,omitempty"` // the snapshot directory is reached through a symbolic link and does not exist before the first call
 }
 
 type c19CaseJ c19Case
@@ -154,6 +155,16 @@ func c19Gen(c *vfCtx, emit func(c19Case)) {
 	for _, pr := range [][2]string{{"TestA/timeout:30s", "TestA/timeout?30s"}, {"TestA/<b>", "TestA/_b_"}, {"TestA/a*", "TestA/a|"}} {
 		emit(c19Case{Name: pr[0], API: "ssnap", Vals: []string{"first test, call 1", "first test, call 2"}, New: []string{"first changed", "first test, call 2"}, Execs: 2, Other: pr[1]})
 	}
+	// the snapshot directory is reached through a symbolic link and is created by the first call
+	for _, api := range []string{"ssnap", "sjson"} {
+		v, n := []string{"first value", "second value", "third value"}, []string{"first value", "second CHANGED", "third value"}
+		if api == "sjson" {
+			v, n = []string{`{"k":1}`, `{"k":2}`, `{"k":3}`}, []string{`{"k":1}`, `{"k":20}`, `{"k":3}`}
+		}
+		for _, execs := range []int{1, 2} {
+			emit(c19Case{Name: "TestA/s", API: api, Vals: v, New: n, Execs: execs, Link: true})
+		}
+	}
 	// Filename / Ext options
 	for _, f := range []string{"cust", "dir/cust", "cu%st"} {
 		for _, ext := range []string{"", ".html", ".%d"} {
@@ -163,7 +174,7 @@ func c19Gen(c *vfCtx, emit func(c19Case)) {
 	}
 	// a rejected call (not a document / matcher error / not marshalable) at every position of a 3-call test: the others keep their files
 	for _, n := range names[:3] {
-		for _, bad := range []string{"!invalid", "!matcher", "!marshal"} {
+		for _, bad := range []string{"!invalid", "!matcher", "!marshal", "!rawinvalid", "!rawcomma"} {
 			for pos := 0; pos < 3; pos++ {
 				vals := []string{`{"k":1}`, `{"k":2}`, `{"k":3}`}
 				neu := []string{`{"k":10}`, `{"k":20}`, `{"k":30}`}
@@ -190,6 +201,14 @@ func c19Gen(c *vfCtx, emit func(c19Case)) {
 
 func c19Run(c *vfCtx, cs c19Case) {
 	dir := c.newWorld()
+	if cs.Link {
+		os.Mkdir(filepath.Join(dir, "real"), 0o755)
+		if err := os.Symlink("real", filepath.Join(dir, "link")); err != nil {
+			c.harnessErr("C19: symlink: %v", err)
+			return
+		}
+		dir = filepath.Join(dir, "link", "pkg", "__snapshots__")
+	}
 	c.addSet("nontrivial", vfHashJSON(cs))
 	class := ""
 	if strings.Contains(cs.Name+cs.File+cs.Ext, "%") {
@@ -229,6 +248,12 @@ func c19Run(c *vfCtx, cs c19Case) {
 			return
 		case "!marshal":
 			cfg.MatchStandaloneJSON(t, map[string]any{"c": make(chan int)})
+			return
+		case "!rawinvalid":
+			cfg.MatchStandaloneJSON(t, json.RawMessage(`{"a":[1,2`)) // a Go value whose own MarshalJSON output is checked by encoding/json
+			return
+		case "!rawcomma":
+			cfg.MatchStandaloneJSON(t, json.RawMessage(`{"a":1,}`))
 			return
 		}
 		if cs.API == "sjson" {
